@@ -44,6 +44,14 @@ type row map[string]interface{}
 
 func hx(b []byte) string { return hex.EncodeToString(b) }
 
+func bytesToInts(b []byte) []int {
+	out := make([]int, len(b))
+	for i, c := range b {
+		out[i] = int(c)
+	}
+	return out
+}
+
 // ---------------------------------------------------------------- seeded field values
 
 type gen struct {
@@ -142,8 +150,8 @@ func (g *gen) text(f string) string {
 	for i := range b {
 		b[i] = letters[g.r.Intn(len(letters))]
 	}
-	if g.r.Intn(4) == 0 { // not only ASCII
-		return string(b) + "é中\x00\xff"
+	if g.r.Intn(4) == 0 { // not only ASCII, still valid UTF-8
+		return string(b) + "é中\x00"
 	}
 	return string(b)
 }
@@ -554,17 +562,25 @@ func sign(hash common.Hash, k *ecdsa.PrivateKey) []byte {
 	return sig
 }
 
-func (g *gen) subTx(exp uint64) *types.Transaction {
+func (g *gen) subTx(exp uint64, badUtf8 bool) *types.Transaction {
 	k := g.keys[g.r.Intn(len(g.keys))]
 	from := crypto.PubkeyToAddress(k.PublicKey)
 	tx := types.NewTransaction(from, g.addr(), g.big([]string{"zero", "small", "big"}[g.r.Intn(3)]), 21000+uint64(g.r.Intn(1000)),
-		g.big("small"), g.blob([]string{"nil", "byte", "long"}[g.r.Intn(3)]), params.OrdinaryTx, 100, exp+uint64(g.r.Intn(100)), g.text("byte"), g.text("long"))
+		g.big("small"), g.blob([]string{"nil", "byte", "long"}[g.r.Intn(3)]), params.OrdinaryTx, 100, exp+uint64(g.r.Intn(100)), g.text("byte"), g.text("long")+bad(badUtf8))
 	tx, err := types.MakeSigner().SignTx(tx, k)
 	must(err)
 	if g.r.Intn(2) == 0 {
 		tx.SetGasUsed(uint64(g.r.Intn(21000)))
 	}
 	return tx
+}
+
+// bytes that are not valid UTF-8 (a Go string / RLP string may hold them)
+func bad(on bool) string {
+	if on {
+		return "\xff\xc0z"
+	}
+	return ""
 }
 
 func buildTx(g *gen, sh tla.Value) (*types.Transaction, types.Transactions) {
@@ -579,8 +595,9 @@ func buildTx(g *gen, sh tla.Value) (*types.Transaction, types.Transactions) {
 		to = &a
 	}
 	toName, msg := "", ""
-	if sh.F("text").S() == "set" {
-		toName, msg = g.text([]string{"byte", "long"}[g.r.Intn(2)]), g.text("long")
+	badUtf8 := sh.F("text").S() == "badutf8"
+	if sh.F("text").S() != "empty" {
+		toName, msg = g.text([]string{"byte", "long"}[g.r.Intn(2)]), g.text("long")+bad(badUtf8)
 	}
 	exp := uint64(1600000000 + g.r.Intn(1e6))
 	txType := params.OrdinaryTx
@@ -595,7 +612,7 @@ func buildTx(g *gen, sh tla.Value) (*types.Transaction, types.Transactions) {
 		txType = params.BoxTx
 		subs = types.Transactions{}
 		for i := 0; i < int(d[3]-'0'); i++ {
-			subs = append(subs, g.subTx(exp))
+			subs = append(subs, g.subTx(exp, badUtf8))
 		}
 		var err error
 		data, err = types.MarshalBoxData(subs)
@@ -693,11 +710,12 @@ type codec struct {
 	obs    func(o interface{}) (v, t, h, s string) // projections of an object (original or decoded)
 	reenc  func(o interface{}) ([]byte, error)
 	orig   interface{}
-	origV  string // when the pre-image value must be taken from the inputs (box sub-transactions)
+	origX  string                     // box payload as seen *before* packing: hashes and signers of the sub-transactions
+	obsX   func(o interface{}) string // the same view taken from a decoded object (GetBox on its Data)
 }
 
 func roundTrip(r row, c codec) {
-	for _, k := range []string{"v0", "v1", "t0", "t1", "h0", "h1", "s0", "s1", "b0", "b1"} {
+	for _, k := range []string{"v0", "v1", "t0", "t1", "h0", "h1", "s0", "s1", "b0", "b1", "x0", "x1"} {
 		r[k] = ""
 	}
 	r["enc"], r["dec"], r["reenc"] = "-", "-", "-"
@@ -705,9 +723,7 @@ func roundTrip(r row, c codec) {
 	if !stage(r, "observe original", func() { r["v0"], r["t0"], r["h0"], r["s0"] = c.obs(c.orig) }) {
 		return
 	}
-	if c.origV != "" {
-		r["v0"] = r["v0"].(string) + c.origV
-	}
+	r["x0"] = c.origX
 	var err error
 	if !stage(r, "encode", func() { b0, err = c.encode() }) {
 		return
@@ -726,7 +742,12 @@ func roundTrip(r row, c codec) {
 		return
 	}
 	r["dec"] = "ok"
-	if !stage(r, "observe decoded", func() { r["v1"], r["t1"], r["h1"], r["s1"] = c.obs(dec) }) {
+	if !stage(r, "observe decoded", func() {
+		r["v1"], r["t1"], r["h1"], r["s1"] = c.obs(dec)
+		if c.obsX != nil {
+			r["x1"] = c.obsX(dec)
+		}
+	}) {
 		return
 	}
 	var b1 []byte
@@ -781,11 +802,12 @@ func instance(g *gen, typ string, sh tla.Value, r row) {
 		tx, subs := buildTx(g, sh)
 		c := txCodec(tx)
 		if subs != nil {
-			c.origV = " " + projSubs(subs) // hashes and signers of the sub-transactions *before* they were packed
+			c.origX = projSubs(subs) // hashes and signers of the sub-transactions *before* they were packed
 		}
+		c.obsX = func(o interface{}) string { return projBox(o.(*types.Transaction)) }
 		roundTrip(r, c)
 		// the JSON form (RPC, and the form box payloads travel in) must preserve value, hash and signers as well
-		r["j"], r["jv"], r["jh"], r["js"] = "-", "", "", ""
+		r["j"], r["jv"], r["jh"], r["js"], r["jx"] = "-", "", "", "", ""
 		stage(r, "json", func() {
 			js, err := json.Marshal(tx)
 			if err != nil {
@@ -798,7 +820,8 @@ func instance(g *gen, typ string, sh tla.Value, r row) {
 				return
 			}
 			r["j"] = "ok"
-			r["jv"], _, r["jh"], r["js"] = c.obs(t2) // a decoded object carries its own view of the box payload
+			r["jv"], _, r["jh"], r["js"] = c.obs(t2)
+			r["jx"] = c.obsX(t2)
 		})
 	case "log":
 		l := buildLog(g, sh.F("t").S(), sh.F("nv").S(), sh.F("ex").S(), sh.F("ver").S())
@@ -908,7 +931,7 @@ func buildBlock(g *gen, ntx, nlog, nconf, ndep int) *types.Block {
 		b.Txs = types.Transactions{}
 	}
 	for i := 0; i < ntx; i++ {
-		b.Txs = append(b.Txs, g.subTx(1600000000))
+		b.Txs = append(b.Txs, g.subTx(1600000000, false))
 	}
 	if nlog > 0 || g.r.Intn(2) == 0 {
 		b.ChangeLogs = types.ChangeLogSlice{}
@@ -996,13 +1019,7 @@ func txCodec(tx *types.Transaction) codec {
 		obs: func(o interface{}) (string, string, string, string) {
 			x := o.(*types.Transaction)
 			h := x.Hash()
-			v := projTx(x)
-			if o != interface{}(tx) { // decoded object: add what the node sees inside the box payload
-				if bx := projBox(x); bx != "" {
-					v += " " + bx
-				}
-			}
-			return v, "", hx(h[:]), txSigners(x)
+			return projTx(x), "", hx(h[:]), txSigners(x)
 		},
 		reenc: encPtr}
 }
@@ -1132,7 +1149,7 @@ func msgCodec(g *gen, m, v string) codec {
 	case "txs":
 		txs := types.Transactions{}
 		for i := 0; i < cnt; i++ {
-			txs = append(txs, g.subTx(1600000000))
+			txs = append(txs, g.subTx(1600000000, false))
 		}
 		return codec{orig: &txs,
 			encode: func() ([]byte, error) { return rlp.EncodeToBytes(&txs) }, // peer.SendTxs
@@ -1194,10 +1211,10 @@ func addressRow(g *gen, sh tla.Value, r row) {
 			a[lead] = byte(1 + g.r.Intn(255))
 		}
 	}
-	for _, k := range []string{"text", "a1", "t0", "t1"} {
+	for _, k := range []string{"text", "t0", "t1"} {
 		r[k] = ""
 	}
-	r["a0"], r["err"] = hx(a[:]), "-"
+	r["a0"], r["a1"], r["err"] = bytesToInts(a[:]), []int{}, "-"
 	var text string
 	if !stage(r, "String", func() { text = a.String() }) {
 		return
@@ -1237,7 +1254,7 @@ func addressRow(g *gen, sh tla.Value, r row) {
 			r["err"] = "err:" + err.Error()
 			return
 		}
-		r["err"], r["a1"], r["t1"] = "ok", hx(d[:]), d.String()
+		r["err"], r["a1"], r["t1"] = "ok", bytesToInts(d[:]), d.String()
 	})
 }
 
